@@ -302,9 +302,13 @@ class Exec(HeapMixin, SpecEvalMixin, ExprMixin, StmtMixin, CallMixin):
                 names["result"] = o.val
                 for gname, (lv, gkind) in c.ghost_out.items():
                     gv = getattr(self, "last_locals", {}).get(id(o.st), {}).get(lv, VNone)
+                    if gv is VNone and isinstance(gkind, KOpt):
+                        # the local is None at this return and the witness is declared Optional: it IS None
+                        names[gname] = VOpt(TRUE, self.fresh_value(fin, gkind.inner, "gout_none_" + gname))
+                        continue
                     if gv is VNone or gv is None:
                         gv = self.fresh_value(fin, gkind, "gout_none_" + gname)
-                    names[gname] = self.unwrap(gv)
+                    names[gname] = gv if isinstance(gkind, KOpt) else self.unwrap(gv)
                 if c.returns is not None:
                     names["result"] = self.check_result_kind(fin, o.val, c.returns)
                 if c.ghost_ensures:
